@@ -70,6 +70,7 @@ func main() {
 			// every case has its own generator: case i of seed s replays alone
 			cw.Put(s(root.Sub(uint64(i)), i))
 		}
+		streams.CloseWorld()
 		if err := cw.Close(); err != nil {
 			fmt.Fprintln(os.Stderr, err)
 			os.Exit(2)
